@@ -18,6 +18,12 @@ class P(vlib.Prop):
             "the validator demands that every index a call returns was authorised by THAT call, and the outcome is compared with the cache model (Model/IndexCache.v). "
             "vctx stage: PAIRS of requests through the real verificationContext (the verification-context part of the cache key); the model, which interprets the hash writes goextract read from the source, must build the "
             "same hash input and string, and the validator demands that equal strings mean the same checked-ness and the same set of (key name, key bytes) pairs. "
+            "wiring stage: ResolveWorld of every context of multi-architecture builds (real APK contexts wired through ByArch by hand and by build.NewMultiArch) over per-architecture indexes that are signed, signed by an unknown key, "
+            "unsigned, spliced or tampered; validator: whenever ResolveWorld succeeds every own AND sibling index that reached resolution was authorised; model = the two ignore arguments read from the source. "
+            "files stage: histories of GetRepositoryIndexes calls over local repositories whose index files are rewritten between calls with explicit mtimes; validator: every returned version is authorised by the call and a repository "
+            "whose index in place is visibly the newest and does not verify under the call is not used; compared with the model of the local-file cache branch. "
+            "interleave stage (best effort, no model): loads of a signed and an exempted remote repository with bodies of equal length under logger-steered, server-stalled and free schedules, GOMAXPROCS 1 and 2, repeated; "
+            "validator: what a call returns for a repository carries that repository's marker packages. "
             "A parse case is non-trivial when the archive has a signature member with at least one entry; distinct = distinct case terms.")
     stages = (
         dict(name="names", cmd="c04", args=lambda t, s: ["-stage", "names"]),
@@ -49,6 +55,7 @@ class P(vlib.Prop):
     design_ref = "DESIGN.md 7 C04"
     modelled_not_verified = ("parseRepositoryIndex, IndexFromArchive, shouldCheckSignatureForIndex, IndexURL, verificationContext are modelled by hand (Model/Index.v, IndexBytes.v, IndexVctx.v) around constants, tables and statement shapes "
                              "regenerated from the source (Generated/IndexConsts.v, IndexShapes.v, Regexes.v); indexCache.get/GetRepositoryIndexes only as a cache discipline (no pin name, ETag change, mtime re-read, missing-file skip); "
-                             "RSAVerifyDigest, gzip, tar are oracles exercised by the parse, sweep and vctx stages; expandapk.Split is not on the index path")
+                             "ResolveWorld's two index loads (Model/IndexWiring.v) and the local-file branch of indexCache.get over rewritten files (Model/IndexCacheFiles.v) are modelled by hand around the arguments read from the source; "
+                             "RSAVerifyDigest, gzip, tar are oracles exercised by the parse, sweep and vctx stages; memory aliasing between concurrent loads is searched for by the interleave stage only; expandapk.Split is not on the index path")
 
 PROP = P()
